@@ -21,9 +21,12 @@ CHECKS = {
                      "look-ahead loop (snapshot at a newline, rewind / keep); TLC checks every recorded cont against it (text, tags, "
                      "can-continue, choices, globals visible between lines, the structure of the save document) and, without running "
                      "code, that it delivers what InkSem prescribes. Random host histories (cont, choose, set_variable, path jumps) are "
-                     "checked against the executable host model spec/InkHost.tla.",
-                note="bounded by the generated programs and path depth; the fragment is the one InkSem gives a meaning to "
-                     "(lists, floats, externals, random sequences are decided by C03/C07/C12)",
+                     "checked against the executable host model spec/InkHost.tla. spec/InkHostMC.tla: TLC explores EVERY history of "
+                     "<= 4 (thorough: 5) public calls over small generated programs and checks the design-level invariants "
+                     "(look-ahead is invisible incl. messages, flows independent, save/load identity, reset initial, refused no-op).",
+                note="bounded by the generated programs and path depth; the fragment is the one InkSem gives a meaning to (incl. parameters, "
+                     "divert-target values and parameters, ref parameters, CONST, switch blocks, inline choice diverts; lists, floats, "
+                     "random sequences are decided by C03/C07)",
                 technique="TLC evaluation of the TLA+ source semantics InkSem over generated ASTs, compared with recorded plays of compiler + runtime"),
     "C09": dict(level=MC, ref="5/C09",
                 text="TLC validates every recorded host call of probed runs against the abstract protocol "
@@ -89,10 +92,13 @@ CHECKS = {
                      "receives in a continue equals, as a bag, the messages the no-handler base run raised in that continue "
                      "plus those raised earlier outside a continue (constructor warning), and the story shows the same lines; "
                      "without a handler an error makes that continue return Err, stays readable and stops the story, a "
-                     "warning never causes Err and stays readable.",
-                note="message texts compared between runs of the same build only; faults raised by generated constructs "
+                     "warning never causes Err and stays readable. Absolute oracle: the executable host model (InkSem/InkLook/InkHost) "
+                     "raises the messages itself - undeclared temporary (warning), zero divisor and loose end (errors), an error in "
+                     "look-ahead rewound - and answers every call of recorded histories with early, late or no handler, jumps, "
+                     "save/load and resets after the fault (InkHostOps: handler deliveries, pending errors/warnings, result, can-continue).",
+                note="message texts compared between runs of the same build only (relational part) and by class (absolute part); faults raised by generated constructs "
                      "(undeclared temp, divert through 0, stray tunnel return, exhausted content, old inkVersion)",
-                technique="TLA+ trace validation (InkHostTrace + InkHostRules) of handler vs no-handler runs"),
+                technique="TLA+ trace validation (InkHostTrace + InkHostRules) of handler vs no-handler runs, and of host histories against the executable model InkHost (messages raised by the model)"),
     "C05": dict(level=TV, ref="5/C05",
                 text="For each of the 121 corpus pairs the choice tree of the reference-compiled story is explored (exhaustively "
                      "to a depth/path bound; breadth-first bounded for The Intercept) and every maximal path is replayed on "
@@ -164,7 +170,7 @@ CHECKS = {
                      "whose line exists in the input (a panic, abort or hang matches no outcome); every divert, tunnel, function "
                      "call, choice target, read-count and divert-target literal resolves exactly under InkPath!ResolveFrom over a "
                      "tree built from the JSON by an independent parser; each input is compiled in two processes and compared.",
-                note="the input space is explored, not enumerated; four classes of input disagree on the unchanged tree (known findings)",
+                note="the input space is explored, not enumerated; the classes of input that disagreed on the unchanged tree have been repaired (KNOWN_FINDINGS.txt)",
                 technique="mutation driver + TLA+ outcome rule and reference resolution (InkPathAudit/InkPath) over compiled output"),
     "C20": dict(level=MC, ref="5/C20",
                 text="spec InkCli defines the sequence of output objects of a play session as a function of the library's transcript "
